@@ -69,10 +69,15 @@ func RandURL(g *mon.Rand, abs bool) *url.URL {
 	}
 }
 
-var headerNames = []string{"Content-Type", "content-length", "X-Custom", "x-UPPER-lower", "Cache-Control", "ETag", "Last-Modified", "vary", "Link", "X-A", "x-b", "X-Long-" + strings.Repeat("n", 30), "Accept-Ranges", "x_under", "x.dot", "x!bang", "Date", "Server", "Content-Encoding", "Content-Language", "x-1", "X-2"}
+var headerNames = []string{"Content-Type", "content-length", "X-Custom", "x-UPPER-lower", "Cache-Control", "ETag", "Last-Modified", "vary", "Link", "X-A", "x-b", "X-Long-" + strings.Repeat("n", 30), "Accept-Ranges", "x_under", "x.dot", "x!bang", "Date", "Server", "Content-Encoding", "Content-Language", "x-1", "X-2",
+	// every character RFC 7230 allows in a field name, upper-case letters next to the specials
+	"X^Caret", "X_Under_Upper", "x`tick", "x|bar", "x~tilde", "x#hash", "x$dollar", "x%percent", "x&amp", "x'quote", "x*star", "x+plus", "X!#$%&'*+-.^_`|~Z"}
 
 func headerValue(g *mon.Rand) string {
 	n := mon.Pick(g, []int{0, 1, 5, 12, 23, 24, 60, 255, 256})
+	if g.Chance(1, 60) {
+		n = mon.Pick(g, []int{65535, 65536, 65537})
+	}
 	b := make([]byte, n)
 	for i := range b {
 		b[i] = byte(0x20 + g.Intn(0x5f))
